@@ -1,6 +1,7 @@
 import ZoektModel.Basic.Proto
 import ZoektModel.C11.Spec
 import ZoektModel.C11.Dist
+import ZoektModel.C11.TOC
 namespace ZoektModel.C11
 open ZoektModel ZoektModel.Proto
 
@@ -35,6 +36,13 @@ def withFile (hex : String) (k : File → String) : String :=
     | .ok f => k f
     | _ => "err"
 
+def renderToc (st : TocState) : String :=
+  ",".intercalate ((knownSections.take 26).map fun (name, k) =>
+    let v := (st.lookup name).getD SecVal.zero
+    match k with
+    | .simple => s!"{name}={v.data.off}+{v.data.sz}"
+    | _ => s!"{name}={v.data.off}+{v.data.sz}/{v.idx.off}+{v.idx.sz}#{v.offsets.length}")
+
 def model (inp : String) : Option String :=
   match fields inp with
   | ["fsd", h] => (hexToBytes? h).map fun d => render showNatList (fromSizedDeltas d)
@@ -51,6 +59,9 @@ def model (inp : String) : Option String :=
     let d ← d.toNat?
     let ls ← natList? ls
     pure (render showNatList (distRun b1 b2 d ls))
+  | ["toc", h, tags] =>
+    let tagList : List Bytes := if tags == "-" then [] else (tags.splitOn ",").map strBytes
+    some (withFile h fun f => render renderToc (readTOCSections f tagList))
   | ["rd", h, off, sz] => do
     let off ← off.toNat?
     let sz ← sz.toNat?
